@@ -371,8 +371,16 @@ def replay_elem(cases, F, mon):
             # Python operation element by element, None -> None (arithmetic) / False (comparison)
             for tag, ops in (("int", list(BIN_OPS) + list(CMP_OPS)), ("float", list(BIN_OPS) + list(CMP_OPS)),
                              ("str", ["add", "eq", "ne", "lt", "le", "ge"]), ("bool", ["add", "eq", "le", "gt"]),
-                             ("date", ["eq", "le", "ge", "lt", "sub"])):
-                vals = operand_vals(tag, la, n_case % 3, 0)
+                             ("date", ["eq", "le", "ge", "lt", "sub"]),
+                             # values that are not equal to themselves: identity is no short cut for ==
+                             ("fnan", list(CMP_OPS) + ["add", "mul"]), ("decnan", ["eq", "ne"]), ("cnan", ["eq", "ne"])):
+                if tag in ("fnan", "decnan", "cnan"):
+                    from decimal import Decimal as _Dec
+                    special = {"fnan": [float("nan"), 1.5, float("inf"), float("nan")], "decnan": [_Dec("NaN"), _Dec("1.5"), _Dec("NaN")],
+                               "cnan": [complex("nan"), 2j, complex(1, float("nan"))]}[tag]
+                    vals = [special[(i + n_case) % len(special)] for i in range(la)]
+                else:
+                    vals = operand_vals(tag, la, n_case % 3, 0)
                 vals = [None if (i + 1) in na else x for i, x in enumerate(vals)]
                 for opname in ops:
                     is_cmp = opname in CMP_OPS
